@@ -223,3 +223,44 @@ def count_ref_models(comp, R, limit=200000):
         s.add(z3.Or([x != m.eval(x, model_completion=True) for x in xs]))
         n += 1
     return n
+
+
+# ---------------------------------------------------------------------------------------------------------------------
+# projection inclusion between two compiled blocks (no reference semantics involved)
+# ---------------------------------------------------------------------------------------------------------------------
+
+def table_by_names(comp):
+    """{(t, factor name, hidden, level position): var}; level position = index among the factor's levels."""
+    return {(t, fk[0], fk[1], li): v for (t, fk, li), v in comp.vt.items()}
+
+
+def inclusion(c1, c2, ctx, keymap=None):
+    """Is every trial sequence of block 1 a trial sequence of block 2?   F1(x,a1) & D2(x,a2) & not Rest2(x,a2).
+    Trial variables are matched through the two real variable tables by (trial, factor name, level position);
+    keymap optionally renames block-1 keys.  Returns None (included), 'incomparable', 'inconclusive' or a dict with a
+    replayed counterexample."""
+    t1, t2 = table_by_names(c1), table_by_names(c2)
+    if keymap:
+        t1 = {keymap(k): v for k, v in t1.items()}
+    if set(t1) != set(t2):
+        return 'incomparable'
+    z1, z2 = Z('p'), Z('q')
+    link = [z1.var(t1[k]) == z2.var(t2[k]) for k in t1]
+    clo = closure_of(c2)
+    ctx.solver_s += clo.seconds
+    if clo.status == 'conflict':
+        r, m = z3_check(z1.cnf(c1.clauses), ctx)
+    else:
+        ne = not_exists_aux_z3(clo, z2)
+        if ne is None:
+            return 'inconclusive'
+        r, m = z3_check(z1.cnf(c1.clauses) + link + z2.cnf(clo.d_clauses) + [ne], ctx)
+    if r == 'unsat':
+        return None
+    if r != 'sat':
+        return 'inconclusive'
+    x1 = {v: z3.is_true(m.eval(z1.var(v), model_completion=True)) for v in range(1, c1.support + 1)}
+    x2 = {t2[k]: x1[t1[k]] for k in t1}
+    if not lib_sat_with_units(c1, x1) or lib_sat_with_units(c2, x2):
+        raise HarnessError('inclusion counterexample did not reproduce through the library SAT path')
+    return {'x1': [v for v in x1 if x1[v]], 'sequence': decode_model(c1, x1)}
